@@ -931,6 +931,14 @@ def gen_spec(run_seed, tier='quick'):
                            + include_basenames(lib) * 2)
             op['faults'] = [{'kind': kind, 'file': f, 'skip': 0}]
             failed = True
+            if rng.random() < 0.12:
+                # polling: the same failing load again and again, then the
+                # file is there
+                for _ in range(rng.choice([3, 8, 20, 40])):
+                    ops.append(dict(op, faults=[dict(op['faults'][0])]))
+                ops.append(op)
+                op = dict((k, v) for k, v in op.items() if k != 'faults')
+                failed = False
         ops.append(op)
         if not failed:
             slots[sid] = lib
@@ -1214,6 +1222,30 @@ def fixed_histories():
         out.append({'property': PROP, 'run_seed': 'fixed-ctor-%s' % src,
                     'config': {'clients': 2, 'libs': [src, uq],
                                'fault_kinds': []}, 'ops': ops})
+    # polling for a file that is not there yet: many failing loads in one
+    # process, then the load, and everything after it, as in a fresh process
+    for lib, fname, n, mol in (('FixA', 'extra.yaml', 40, 'CCO'),
+                               ('BensonGA', 'strain.yaml', 20, 'CCC'),
+                               ('GRWSurface2018', 'scheme.yaml', 40, '[Pt]CC')):
+        bad = {'op': 'load', 'client': 0, 'slot': 0, 'lib': lib,
+               'how': 'name', 'faults': [{'kind': 'ENOENT', 'file': fname,
+                                          'skip': 0}]}
+        ops = [dict(bad, faults=[dict(bad['faults'][0])]) for _ in range(n)]
+        ops += [{'op': 'load', 'client': 0, 'slot': 0, 'lib': lib,
+                 'how': 'name'},
+                {'op': 'mapping_api', 'client': 0, 'slot': 0},
+                {'op': 'decompose', 'client': 0, 'slot': 0, 'mol': mol,
+                 'out': 'd0'},
+                {'op': 'estimate', 'client': 0, 'slot': 0, 'from': 'd0',
+                 'out': 'e0'},
+                {'op': 'evaluate', 'client': 0, 'est': 'e0',
+                 'v': {'m': 'get_HoRT', 'T': 500.0}},
+                {'op': 'load', 'client': 1, 'slot': 1, 'lib': 'XieGA2022',
+                 'how': 'path'},
+                {'op': 'mapping_api', 'client': 1, 'slot': 1}]
+        out.append({'property': PROP, 'run_seed': 'fixed-poll-%s' % lib,
+                    'config': {'clients': 2, 'libs': [lib, 'XieGA2022'],
+                               'fault_kinds': ['ENOENT']}, 'ops': ops})
     # a library with a scheme and no groups collects two others: neither
     # source may change, whatever the second merge brings for groups of the
     # first
